@@ -204,14 +204,15 @@ func genC20(r *Rng, tier string) []*Case {
 		switch w := r.Intn(100); {
 		case w < 8:
 			// absent: default 10
-		case w < 84:
+		case w < 81:
 			h := strconv.Itoa(1 + r.Intn(100))
 			in.Hunch = &h
-		case w < 91:
+		case w < 88:
 			h := "100"
 			in.Hunch = &h
 		case w < 94:
-			h := "1"
+			// very low confidence: thousands of iterations before the hard-coded epsilon is met
+			h := []string{"1", "1", "2", "3"}[r.Intn(4)]
 			in.Hunch = &h
 		default:
 			h := []string{"0", "-1", "101", "abc", "", "5.5", "1e2"}[r.Intn(7)]
